@@ -16,8 +16,10 @@ Four families of models (one model = one generated layout x one clock mode):
 Search: a state is the history (tuple of operations) that reaches it.  Each expansion builds a fresh node, replays the
 history and applies one more operation (live frappy objects do not deep-copy).  Level-synchronous BFS to a depth bound;
 states are merged on a canonical key; a model whose frontier runs empty before the bound is *closed* (the result then
-holds for every longer sequence over the same menu).  Invariants are evaluated in every state, transition oracles on
-every (state, operation) pair.  A state that violates an invariant is reported and not expanded further, so the
+holds for every longer sequence over the same menu, except behind pruned violating states).  Depth 4 (quick) / 5
+(thorough).  The thorough tier adds: 3-member variants of every struct layout, failing hardware reads, nextafter()
+neighbours of limits and of float-enum midpoints, the fast clock for the limits family and the remaining float-enum
+layouts.  Invariants are evaluated in every state, transition oracles on every (state, operation) pair.  A state that violates an invariant is reported and not expanded further, so the
 reported history ends with the operation that introduced the inconsistency.
 
 Canonical key (argument for merging): the future behaviour of the code under test depends on (a) value, readerror and
@@ -499,7 +501,7 @@ class FloatEnumModel(Model):
         lo, hi = vals[0], vals[-1]
         cands = list(vals)
         for a, b in zip(vals, vals[1:]):
-            cands += [(a + b) / 2, a + (b - a) / 4, a + 3 * (b - a) / 4]
+            cands += [(a + b) / 2, a + (b - a) / 4, a + 3 * (b - a) / 4, a + 0.45 * (b - a), a + 0.55 * (b - a)]
             if core.TIER == 'thorough':
                 cands += [math.nextafter((a + b) / 2, -math.inf), math.nextafter((a + b) / 2, math.inf),
                           math.nextafter(a, math.inf), math.nextafter(b, -math.inf)]
@@ -749,7 +751,8 @@ class LimitsModel(Model):
         post = world.cache()
         found = []
         bkey = f'm:{self.base}'
-        tag = f'limits:{self.layout}:{self.kind}'
+        # the signature names the branch of the limit check (separate min / max or the pair), not the base datatype
+        tag = 'limits:' + ('min-max' if self.layout in ('min', 'max', 'both') else 'pair')
         if op[1] == 'w' and op[2] == 'X':
             lo, hi = self.current_limits(pre)
             vw = wire(self.kind, op[3])
@@ -795,7 +798,8 @@ def limits_specs(tier):
                                        ('scaled', 'both', 'x', True), ('int', 'limits', 'x', True),
                                        ('float', 'limitstype', 'target', True)):
         res.append(dict(family='limits', base=kind, layout=layout, name=name, preset=preset))
-    return [dict(r, clock=c) for r in res for c in ('slow', 'fast')]
+    # no callbacks hang on limit parameters, so the clock mode matters least here: quick runs the slow clock only
+    return [dict(r, clock=c) for r in res for c in (('slow',) if tier == 'quick' else ('slow', 'fast'))]
 
 
 # ---------------------------------------------------------------------------------------------
